@@ -1,0 +1,50 @@
+//go:build verif
+
+// Package verifhook provides yield and crash points for external
+// verification harnesses. With the "verif" build tag the points dispatch to
+// callbacks installed by the harness (nil callbacks are no-ops).
+package verifhook
+
+import "sync/atomic"
+
+type callback struct{ f func(name string) }
+
+var (
+	yieldCB atomic.Pointer[callback]
+	crashCB atomic.Pointer[callback]
+)
+
+// SetYield installs (or, with nil, removes) the yield callback.
+func SetYield(f func(name string)) {
+	if f == nil {
+		yieldCB.Store(nil)
+		return
+	}
+	yieldCB.Store(&callback{f: f})
+}
+
+// SetCrash installs (or, with nil, removes) the crash callback.
+func SetCrash(f func(name string)) {
+	if f == nil {
+		crashCB.Store(nil)
+		return
+	}
+	crashCB.Store(&callback{f: f})
+}
+
+// Yield marks a scheduling point before a shared access.
+func Yield(name string) {
+	if cb := yieldCB.Load(); cb != nil {
+		cb.f(name)
+	}
+}
+
+// Crash marks a durability-relevant step.
+func Crash(name string) {
+	if cb := crashCB.Load(); cb != nil {
+		cb.f(name)
+	}
+}
+
+// Enabled reports whether hooks are compiled in.
+func Enabled() bool { return true }
